@@ -169,6 +169,12 @@ async fn client_step(log: &Log, port: u16, clients: &Shared, step: &Value, with_
         "close" => {
             let c = clients.lock().get(&cname).cloned();
             if let Some(c) = c {
+                if step.get("rst").and_then(|x| x.as_bool()).unwrap_or(false) {
+                    // SO_LINGER 0: the kernel sends RST at once, the peer's next write fails
+                    if let Some(st) = c.lock().await.stream.as_ref() {
+                        let _ = st.set_linger(Some(std::time::Duration::from_secs(0)));
+                    }
+                }
                 c.lock().await.stream = None;
                 mockpg::log_event(log, json!({"who": cname, "ev": "closed_by_client"}));
             }
@@ -469,9 +475,18 @@ async fn run(scn: Value) -> Value {
                 // connection counts, cancel requests too) of the client tasks that stop at a point.
                 let on = step["arm"].as_bool().unwrap_or(true);
                 let park: Vec<u64> = step.get("park").and_then(|x| x.as_array()).map(|a| a.iter().filter_map(|x| x.as_u64()).collect()).unwrap_or_default();
-                *pooler::HOOK_PARK.lock() = park.clone();
                 pooler::HOOK_ACTORS.store(on, Ordering::SeqCst);
-                pgcat::verif_hooks::GATE.0.lock().unwrap().tickets.insert(0, u64::MAX / 2); // actor 0 never parks
+                {
+                    // every client task except the listed ones passes every point (a practically unlimited number of tickets)
+                    let mut g = pgcat::verif_hooks::GATE.0.lock().unwrap();
+                    for id in 0..4096u64 {
+                        if park.contains(&id) {
+                            g.tickets.remove(&id);
+                        } else {
+                            g.tickets.insert(id, u64::MAX / 2);
+                        }
+                    }
+                }
                 pgcat::verif_hooks::arm(on);
                 if on {
                     // A parked client task blocks its tokio worker thread.  If that worker was the one that
@@ -537,6 +552,43 @@ async fn run(scn: Value) -> Value {
                     mockpg::log_event(&log, json!({"who": "harness", "ev": "wait_inuse_timeout", "want": want, "got": got}));
                 }
             }
+            "wait_waiting" => {
+                // C04 (additive): wait until exactly n registered clients are in state "waiting" (inside pool.get()), or timeout
+                let want = step["n"].as_u64().unwrap_or(0) as usize;
+                let to = step["timeout_ms"].as_u64().unwrap_or(1500);
+                let t0 = std::time::Instant::now();
+                let mut got;
+                loop {
+                    got = pgcat::stats::get_client_stats().values().filter(|c| format!("{}", c.state.load(Ordering::Relaxed)) == "waiting").count();
+                    if got == want || (t0.elapsed().as_millis() as u64) >= to {
+                        break;
+                    }
+                    tokio::time::sleep(std::time::Duration::from_millis(2)).await;
+                }
+                if got != want {
+                    mockpg::log_event(&log, json!({"who": "harness", "ev": "wait_waiting_timeout", "want": want, "got": got}));
+                }
+            }
+            "wait_total" => {
+                // C17 (additive): wait until the main loop's total_clients equals `value` (and, if given, `exited`
+                // equals the flag) or `timeout_ms` passed; logs the values seen last with a wall-clock stamp
+                // (timeout_ms = 0: a pure time-stamped mark)
+                let want = step["value"].as_i64();
+                let want_exit = step.get("exited").and_then(|x| x.as_bool());
+                let to = step["timeout_ms"].as_u64().unwrap_or(0);
+                let t0 = std::time::Instant::now();
+                loop {
+                    let p = ctx.pooler.as_ref().unwrap();
+                    let t = p.total_clients.load(Ordering::SeqCst);
+                    let e = p.exited.load(Ordering::SeqCst);
+                    if (want.map(|w| w == t).unwrap_or(true) && want_exit.map(|w| w == e).unwrap_or(true)) || (t0.elapsed().as_millis() as u64) >= to {
+                        let unix_ms = std::time::SystemTime::now().duration_since(std::time::UNIX_EPOCH).map(|d| d.as_millis() as u64).unwrap_or(0);
+                        mockpg::log_event(&log, json!({"who": "harness", "ev": "wait_total", "label": step["label"], "total": t, "exited": e, "unix_ms": unix_ms, "waited_ms": t0.elapsed().as_millis() as u64}));
+                        break;
+                    }
+                    tokio::time::sleep(std::time::Duration::from_millis(2)).await;
+                }
+            }
             "wait_exit" => {
                 let t0 = std::time::Instant::now();
                 let to = step["timeout_ms"].as_u64().unwrap_or(5000);
@@ -572,6 +624,8 @@ async fn run(scn: Value) -> Value {
             }
         }
     }
+    // C10: every arrival at a verif_hooks point while armed (actor id, point)
+    result["hook_log"] = json!(pgcat::verif_hooks::GATE.0.lock().unwrap().log.iter().map(|(a, p)| json!([a, p])).collect::<Vec<_>>());
     result["events"] = json!(log.lock().clone());
     result["snapshots"] = json!(ctx.snapshots);
     result["task_results"] = json!(ctx.pooler.as_ref().unwrap().task_results.lock().clone());
